@@ -166,11 +166,52 @@ Definition expr_result (f : xform) (vals : list Z) : res (list Z) :=
   | _, _ => Host host_Other
   end.
 
+(* ---------- nested draws: the argument of RND is itself computed from draws ----------
+   RND(RND), RND(0*RND), RND(-RND), RND(FNR(2)) with DEF FNR(Q)=RND*Q, two levels deep, ...
+   Every node yields a Single; the argument expression is evaluated completely (all its draws made, the seed
+   advanced) BEFORE the outer call looks at the seed. *)
+Inductive nexp :=
+| NPlain                  (* RND *)
+| NVal (v : value)        (* RND(v), v an immediate value *)
+| NArg (e : nexp)         (* RND(e) *)
+| NNeg (e : nexp)         (* -e *)
+| NZero (e : nexp)        (* 0*e *)
+| NTwice (e : nexp).      (* e*2, FNR(2) *)
+
+Definition neg_bytes (b : list Z) : list Z :=
+  [sng_byte b 0; sng_byte b 1; Z.lxor (sng_byte b 2) 128; sng_byte b 3].
+Definition twice_bytes (b : list Z) : list Z :=
+  if sng_is_zero b then [0; 0; 0; 0] else [sng_byte b 0; sng_byte b 1; sng_byte b 2; sng_byte b 3 + 1].
+
+Definition split_res (s : Z) (r : res (Z * list Z)) : Z * res (list Z) :=
+  match r with
+  | Ok (s', b) => (s', Ok b)
+  | Err e => (s, Err e)
+  | Host x => (s, Host x)
+  | OutOfFuel => (s, OutOfFuel)
+  end.
+
+Fixpoint neval (s : Z) (e : nexp) : Z * res (list Z) :=
+  match e with
+  | NPlain => split_res s (rnd_fn s None)
+  | NVal v => split_res s (rnd_fn s (Some v))
+  | NArg e' =>
+      let '(s1, r) := neval s e' in
+      match r with
+      | Ok b => split_res s1 (rnd_fn s1 (Some (VSng b)))     (* the outer call starts from s1 *)
+      | _ => (s1, r)
+      end
+  | NNeg e' => let '(s1, r) := neval s e' in (s1, rmap neg_bytes r)
+  | NZero e' => let '(s1, r) := neval s e' in (s1, rmap (fun _ => [0; 0; 0; 0]) r)
+  | NTwice e' => let '(s1, r) := neval s e' in (s1, rmap twice_bytes r)
+  end.
+
 Inductive op :=
 | ORnd (arg : option value)     (* RND, RND(x) *)
 | ORandomize (v : value)        (* RANDOMIZE x *)
 | OClear                        (* CLEAR / RUN / NEW: Randomiser.clear() *)
-| OExpr (f : xform) (args : list (option value)).   (* an expression combining several draws *)
+| OExpr (f : xform) (args : list (option value))    (* an expression combining several draws *)
+| ONest (e : nexp).                                 (* an expression with nested draws *)
 
 (* one operation: new seed (unchanged on error) and what the caller observes *)
 Definition step (s : Z) (o : op) : Z * res (list Z) :=
@@ -191,6 +232,7 @@ Definition step (s : Z) (o : op) : Z * res (list Z) :=
       end
   | OClear => (rnd_clear s, Ok [])
   | OExpr f args => let '(s', r) := draws s args in (s', bind r (expr_result f))
+  | ONest e => neval s e
   end.
 
 (* final seed of a history *)
